@@ -5,11 +5,11 @@ import "verif/mc/runner"
 func init() {
 	add(&runner.Spec{
 		Prop: "C12",
-		Rule: "call alphabet of 16: Unmarshal into string, []byte, RawMessage, json.Number, an Unmarshaler and a TextUnmarshaler that retain the slice they are handed, interface{}, a struct with all of these incl. a ,string field; successive Decodes from one stream with escapes and a long string that forces a refill; Token with UseNumber; Marshal small / 4 KiB, MarshalIndent, Encoder; and two caller actions insertable anywhere: overwrite every input passed so far with 0xEE, overwrite every returned slice (to its capacity) with 0xEE. Every history of length <=3 (quick) / <=4 (thorough), under the default pool answers and every single pool deviation. After every step: every caller input still equals its snapshot, every value ever produced (incl. the slices kept by the retaining callbacks and earlier values from the same Decoder) equals its deep snapshot, and every call gives its cold result.",
+		Rule: "call alphabet of 16: Unmarshal into string, []byte, RawMessage, json.Number, an Unmarshaler and a TextUnmarshaler that retain the slice they are handed, interface{}, a struct with all of these incl. a ,string field; successive Decodes from one stream with escapes and a long string that forces a refill; Token with UseNumber; Marshal small / 4 KiB, MarshalIndent, Encoder; and two caller actions insertable anywhere: overwrite every input passed so far with 0xEE, overwrite every returned slice (to its capacity) with 0xEE. Every history of length <=3 (quick) / <=4 (thorough), under the default pool answers and every single pool deviation. After every step: every caller input still equals its snapshot, every value ever produced (incl. the slices kept by the retaining callbacks and earlier values from the same Decoder) equals its deep snapshot, and every call gives its cold result. Output sizes: for 75 (thorough 136) element counts giving documents from a few bytes to 600 KiB, dense around the powers of two and the sizes at which a pooled buffer is kept or dropped, and 5 buffer-returning entry points: document, small value, small map, document again, larger document - every earlier result unchanged after every step; then the caller overwrites every slice it was given to its capacity and later results must be those of a fresh library.",
 		StatesAre: "distinct call results observed over all histories",
 		Assume:    append([]string{"deterministic LIFO pool shim (build overlay) so that buffer recycling is reproducible; pool answers are choice points", "inputs are handed over with spare capacity, as a reused caller buffer would be"}, commonAssume...),
 		Jobs: func(tier string) []runner.Job {
-			return []runner.Job{{Harness: "c12.histories", Mode: "shim", Shards: 16}}
+			return []runner.Job{{Harness: "c12.histories", Mode: "shim", Shards: 16}, {Harness: "c12.sizes", Mode: "shim", Shards: 16, GC: "on"}}
 		},
 	})
 }
